@@ -127,9 +127,22 @@ static errcode_t stub_set_blksize(io_channel c, int s) { (void) c; vf_blksize = 
 #define UP_A 2
 #define UP_B 1
 #endif
-static struct ext2_super_block vf_orig __attribute__((aligned(8)));
-static struct ext2_super_block vf_imgA __attribute__((aligned(8)));
-static struct ext2_super_block vf_imgB __attribute__((aligned(8)));
+/* the three images are laid out as 16 chunks of 64 bytes (same memory as a superblock): CBMC keeps per-element
+ * constants only for arrays of <= 64 elements, and the real word-compare loop must see the equal words as constants */
+struct vf_img { unsigned char c0[64], c1[64], c2[64], c3[64], c4[64], c5[64], c6[64], c7[64],
+		c8[64], c9[64], c10[64], c11[64], c12[64], c13[64], c14[64], c15[64]; };
+static struct vf_img vf_orig __attribute__((aligned(8)));
+static struct vf_img vf_imgA __attribute__((aligned(8)));
+static struct vf_img vf_imgB __attribute__((aligned(8)));
+static void vf_img_set(struct vf_img *m, unsigned char lo, unsigned char up, __u32 csum)
+{
+	m->c0[0x30] = lo;			/* s_wtime, byte 0x30 */
+	m->c9[0x30] = up;			/* s_checksum_seed, byte 0x270 */
+	m->c15[0x3C] = csum & 255;		/* s_checksum, 0x3FC..0x3FF little-endian */
+	m->c15[0x3D] = (csum >> 8) & 255;
+	m->c15[0x3E] = (csum >> 16) & 255;
+	m->c15[0x3F] = (csum >> 24) & 255;
+}
 static unsigned char vf_dev[1024];	/* the device: bytes 1024..2047 of the disk */
 static int vf_dev_bad_write;
 /* STUB: io_channel_write_byte() stores the bytes in the device model (only inside the primary superblock) */
@@ -151,7 +164,7 @@ static errcode_t stub_write_byte(io_channel c, unsigned long o, int n, const voi
 {
 	return io_channel_write_byte(c, o, n, d);
 }
-static int vf_dev_equals(const struct ext2_super_block *img)
+static int vf_dev_equals(const struct vf_img *img)
 {
 	const unsigned char *p = (const unsigned char *) img;
 	int i;
@@ -175,9 +188,9 @@ int main(void)
 
 	VF_INPUT(IN);
 #if MODE == 3
-	vf_orig.s_wtime = LO_O; vf_imgA.s_wtime = LO_A; vf_imgB.s_wtime = LO_B;
-	vf_orig.s_checksum_seed = UP_O; vf_imgA.s_checksum_seed = UP_A; vf_imgB.s_checksum_seed = UP_B;
-	vf_orig.s_checksum = IN.csum_o; vf_imgA.s_checksum = IN.csum_a; vf_imgB.s_checksum = IN.csum_b;
+	vf_img_set(&vf_orig, LO_O, UP_O, IN.csum_o);
+	vf_img_set(&vf_imgA, LO_A, UP_A, IN.csum_a);
+	vf_img_set(&vf_imgB, LO_B, UP_B, IN.csum_b);
 	for (i = 0; i < 1024; i++)
 		vf_dev[i] = ((unsigned char *) &vf_orig)[i];	/* orig_super is the image read at open time */
 	vf_mgr.write_byte = stub_write_byte;
@@ -185,15 +198,15 @@ int main(void)
 	vf_mgr.set_blksize = stub_set_blksize;
 	vf_io.manager = &vf_mgr;
 	vf_fs.magic = EXT2_ET_MAGIC_EXT2FS_FILSYS;
-	vf_fs.super = &vf_imgA;
+	vf_fs.super = (struct ext2_super_block *) &vf_imgA;
 	vf_fs.io = &vf_io;
 	vf_fs.blocksize = 4096;
-	vf_fs.orig_super = &vf_orig;
-	rc = write_primary_superblock(&vf_fs, &vf_imgA);
+	vf_fs.orig_super = (struct ext2_super_block *) &vf_orig;
+	rc = write_primary_superblock(&vf_fs, (struct ext2_super_block *) &vf_imgA);
 	PROP(rc == 0 && !vf_dev_bad_write && vf_nwrites == 0, "primary sb (incremental): first update succeeds, byte writes inside the superblock only");
 	PROP(vf_dev_equals(&vf_imgA), "primary sb (incremental): after the first update the device holds image A");
-	vf_fs.super = &vf_imgB;
-	rc = write_primary_superblock(&vf_fs, &vf_imgB);
+	vf_fs.super = (struct ext2_super_block *) &vf_imgB;
+	rc = write_primary_superblock(&vf_fs, (struct ext2_super_block *) &vf_imgB);
 	PROP(rc == 0 && !vf_dev_bad_write && vf_nwrites == 0, "primary sb (incremental): second update succeeds, byte writes inside the superblock only");
 	PROP(vf_dev_equals(&vf_imgB), "primary sb (incremental): after the second update the device holds image B");
 	PROP(vf_dev_equals(&vf_orig), "primary sb (incremental): orig_super mirrors the device");
